@@ -12,7 +12,7 @@ use crate::{
     common::Run,
     genstate::{
         achievable, corr_line, decompose, derived_of, describe, judgements, observe, request_line, scaled_dist,
-        state_numerator, stored_acc, Case, Derived, CATCH, MANIA, MODE_NAMES, N_FIELDS, MISS_IDX, OSU, TAIKO,
+        state_numerator, stored_acc, Case, Derived, CATCH, HIT_IDX, MANIA, MISS_IDX, MODE_NAMES, N_FIELDS, OSU, TAIKO,
     },
     rng::Rng,
 };
@@ -23,6 +23,24 @@ struct Ctx<'a> {
     counter: [u64; 4],
     cache: HashMap<(u8, [u32; 4], Option<u32>, bool, bool, bool, u32), (u64, Vec<u64>)>,
     corr_every: [u64; 4],
+    /// every how many cases a `GSQ` line (exact instance vs Float instance, both distances exact) is emitted
+    q_every: u64,
+    /// exploration mode (`VERIF_C13_DEEP=1`, never set by ./check): only section 3, larger, no lines
+    deep: bool,
+}
+
+fn gcd(mut a: u128, mut b: u128) -> u128 {
+    while b != 0 {
+        (a, b) = (b, a % b);
+    }
+    a
+}
+
+/// `scaled / (den · 2^k)` as a reduced fraction `n/d` (the driver prints core `Rat`s the same way).
+fn frac(scaled: u128, den: u64, k: u32) -> String {
+    let d = u128::from(den) << k;
+    let g = gcd(scaled, d);
+    format!("{}/{}", scaled / g, d / g)
 }
 
 fn next_up(x: f64) -> f64 {
@@ -55,6 +73,7 @@ impl Ctx<'_> {
         let run = &mut self.run;
         run.count(&format!("mode:{}", MODE_NAMES[mode]));
         run.count(&format!("gen:{tag}"));
+        run.count(&format!("{}: cases (in the quantifier)", arm_of(&c, d)));
         run.count(if c.worst { "priority:worst" } else { "priority:best" });
         run.count(&format!("origin:lazer={} no_slider_head_acc={} cl={}", u8::from(d.lazer), u8::from(d.nsha), u8::from(d.cl)));
         let line = request_line(&c, d);
@@ -114,6 +133,21 @@ impl Ctx<'_> {
             return;
         }
         let mine = scaled_dist(m, k, den, num);
+        // f64-vs-exact gap: the driver runs the exact instance `ratOps = fieldOps 2` (the instance of the
+        // optimality theorems) and the Float instance on the same request and prints both exact
+        // distances; expected: the exact instance attains the brute-force optimum, the Float instance
+        // (= the implementation, by the `GS` line) has the implementation's distance.
+        if self.counter[mode] % self.q_every == 0 || mine != best {
+            let total = if c.mode == CATCH { c.attrs[0] + c.attrs[1] + c.attrs[2] } else { j };
+            let run = &mut self.run;
+            run.line(&format!("{id}q"), format!("GSQ{}", &line[2..]), format!("{misses} {total} {} {}", frac(best, den, k), frac(mine, den, k)));
+            run.count(if mine == best {
+                "exact-vs-f64: GSQ line, f64 answer as close as the exact instance's"
+            } else {
+                "exact-vs-f64: GSQ line, f64 answer worse than the exact instance's (must be within 2^-40)"
+            });
+        }
+        let run = &mut self.run;
         if mine <= best {
             if mine < best {
                 run.fail("oracle:brute-force-reference-wrong", "", &id, format!("implementation closer ({mine}) than the reference optimum ({best})"), repro());
@@ -135,6 +169,187 @@ impl Ctx<'_> {
                 ),
                 repro(),
             );
+        }
+    }
+}
+
+/// `S` = provided, `N` = open, over the mode's hit-result fields (catch: tiny droplets, tiny misses).
+fn pattern_of(c: &Case) -> String {
+    let idx: &[usize] = if c.mode == CATCH { &[3, 4] } else { HIT_IDX[c.mode as usize] };
+    idx.iter().map(|&i| if c.fields[i].is_some() { 'S' } else { 'N' }).collect()
+}
+
+fn origin_tag(mode: u8, d: Derived) -> &'static str {
+    match mode {
+        OSU => match (d.lazer, d.nsha) {
+            (false, _) => "stable",
+            (true, false) => "lazer-slider-acc",
+            (true, true) => "lazer-classic-sliders",
+        },
+        MANIA => {
+            if !d.lazer || d.cl {
+                "classic"
+            } else {
+                "lazer"
+            }
+        }
+        _ => "-",
+    }
+}
+
+/// The arm of `generate_state` a case runs through (inventory key, see docs/delivery-C13b.md).
+fn arm_of(c: &Case, d: Derived) -> String {
+    format!("arm:{}:{}:{}", MODE_NAMES[c.mode as usize], pattern_of(c), origin_tag(c.mode, d))
+}
+
+/// All accuracy numerators of the completions of the provided (clamped) hit results: the open
+/// fields take every distribution of the remaining objects. `None` when the provided values do not
+/// fit. `extra` = slider part of the numerator (osu), taken from the generated state.
+fn completions(weights: &[u64], provided: &[Option<u32>], r: u32, extra: u64) -> Option<Vec<u64>> {
+    let fixed: u32 = provided.iter().map(|p| p.map_or(0, |v| v.min(r))).sum();
+    if fixed > r {
+        return None;
+    }
+    let base: u64 = provided.iter().zip(weights).map(|(p, w)| u64::from(p.map_or(0, |v| v.min(r))) * w).sum::<u64>() + extra;
+    let open: Vec<u64> = provided.iter().zip(weights).filter(|(p, _)| p.is_none()).map(|(_, w)| *w).collect();
+    let free = r - fixed;
+    let mut nums = Vec::new();
+    fn rec(open: &[u64], free: u32, acc: u64, out: &mut Vec<u64>) {
+        match open {
+            [] => {
+                if free == 0 {
+                    out.push(acc);
+                }
+            }
+            [w] => out.push(acc + u64::from(free) * w),
+            [w, rest @ ..] => {
+                for k in 0..=free {
+                    rec(rest, free - k, acc + u64::from(k) * w, out);
+                }
+            }
+        }
+    }
+    rec(&open, free, base, &mut nums);
+    nums.sort_unstable();
+    nums.dedup();
+    Some(nums)
+}
+
+impl Ctx<'_> {
+    /// A search arm with some hit results provided (outside the property's quantifier, which is
+    /// "no individual hit results"): the arm is exercised, tied to the model through a `GS` line, and
+    /// its optimality among the completions of the provided results is *measured* (counts per arm);
+    /// a sub-optimal answer here is an observation, not a violation of C13.
+    fn case_provided(&mut self, c: Case) {
+        let mode = c.mode as usize;
+        self.counter[mode] += 1;
+        let id = format!("{}{}", &MODE_NAMES[mode][..1], self.counter[mode]);
+        if self.only.is_some_and(|o| o != id) {
+            return;
+        }
+        let d = derived_of(&c);
+        let o = observe(&c, false);
+        let arm = arm_of(&c, d);
+        let run = &mut self.run;
+        run.count(&format!("mode:{}", MODE_NAMES[mode]));
+        run.count("gen:provided-arms");
+        let line = request_line(&c, d);
+        let (cap, j) = judgements(&c, d);
+        run.eval((j > 0).then_some(line.as_str()));
+        if !self.deep {
+            corr_line(run, &id, &c, d, &o);
+        }
+        let Ok(s) = &o.s1 else {
+            run.fail("oracle:generate_state-fails", "", &id, format!("{:?}", o.s1), format!("{}\n{}", describe(&c, d), line));
+            return;
+        };
+        let misses = c.fields[MISS_IDX[mode]].unwrap_or(0).min(cap);
+        let Some((m, k)) = decompose(stored_acc(c.acc.unwrap_or(0.0))) else {
+            return;
+        };
+        // weights, provided values, denominator, state numerator
+        let (weights, idx, den, extra): (Vec<u64>, Vec<usize>, u64, u64) = match c.mode {
+            OSU => {
+                let [_, _, ns, nlt] = c.attrs;
+                let (extra, max_extra) = match (d.lazer, d.nsha) {
+                    (false, _) => (0, 0),
+                    (true, false) => (150 * s[3].min(ns) + 30 * s[1].min(nlt), 150 * ns + 30 * nlt),
+                    (true, true) => (30 * s[1].min(ns + nlt) + 10 * s[2].min(ns), 30 * (ns + nlt) + 10 * ns),
+                };
+                (vec![300, 100, 50], vec![4, 5, 6], u64::from(300 * j + max_extra), u64::from(extra))
+            }
+            TAIKO => (vec![2, 1], vec![1, 2], u64::from(2 * j), 0),
+            CATCH => {
+                // tiny droplets: numerator fruits + droplets + tiny over the constant denominator
+                let [f, dd, t, _] = c.attrs;
+                if let (Some(a), Some(b)) = (c.fields[3], c.fields[4]) {
+                    if u64::from(a) + u64::from(b) == u64::from(t) {
+                        // consistent pair: kept as provided, `find_best_tiny_droplets` is not called
+                        run.count("arm:catch:SS(consistent):-: provided pair kept (not accuracy-driven)");
+                        if s[3] != a || s[4] != b {
+                            run.fail("oracle:provided-result-not-kept", "", &id, format!("tiny pair ({a},{b}) given, state {s:?}"), format!("{}\n{}", describe(&c, d), line));
+                        }
+                        return;
+                    }
+                }
+                if s[1] + s[2] + s[5] != f + dd || s[3] + s[4] != t {
+                    run.count(&format!("{arm}: state inconsistent (C12's clauses, not compared)"));
+                    return;
+                }
+                let nums: Vec<u64> = (0..=t).map(|x| u64::from(s[1] + s[2] + x)).collect();
+                let den = u64::from(f + dd + t);
+                if den == 0 {
+                    return;
+                }
+                let mine = scaled_dist(m, k, den, u64::from(s[1] + s[2] + s[3]));
+                let best = nums.iter().map(|&n| scaled_dist(m, k, den, n)).min().unwrap_or(0);
+                Self::tally(run, &arm, &id, &c, d, mine, best, den, k, s, &line);
+                return;
+            }
+            _ => {
+                let w = if !d.lazer || d.cl { 60 } else { 61 };
+                (vec![w, 60, 40, 20, 10], vec![0, 1, 2, 3, 4], w * u64::from(j), 0)
+            }
+        };
+        if den == 0 {
+            return;
+        }
+        let r = j - misses;
+        let provided: Vec<Option<u32>> = idx.iter().map(|&i| c.fields[i]).collect();
+        let Some(nums) = completions(&weights, &provided, r, extra) else {
+            run.count(&format!("{arm}: provided results exceed the objects (not compared)"));
+            return;
+        };
+        // the state must keep the provided results and distribute the objects (C12's clauses)
+        let kept = idx.iter().all(|&i| c.fields[i].is_none_or(|v| s[i] == v.min(r)));
+        let total: u32 = idx.iter().map(|&i| s[i]).sum::<u32>() + s[MISS_IDX[mode]];
+        if !kept || total != j || s[MISS_IDX[mode]] != misses {
+            run.count(&format!("{arm}: state inconsistent (C12's clauses, not compared)"));
+            return;
+        }
+        let num: u64 = idx.iter().zip(&weights).map(|(&i, w)| u64::from(s[i]) * w).sum::<u64>() + extra;
+        let mine = scaled_dist(m, k, den, num);
+        let best = nums.iter().map(|&n| scaled_dist(m, k, den, n)).min().unwrap_or(0);
+        Self::tally(run, &arm, &id, &c, d, mine, best, den, k, s, &line);
+    }
+
+    #[allow(clippy::too_many_arguments)]
+    fn tally(run: &mut Run, arm: &str, id: &str, c: &Case, d: Derived, mine: u128, best: u128, den: u64, k: u32, s: &[u32], line: &str) {
+        if mine < best {
+            run.fail("oracle:brute-force-reference-wrong", "", id, format!("implementation closer ({mine}) than the reference optimum ({best})"), format!("{}\n{}", describe(c, d), line));
+            return;
+        }
+        let excess = (mine - best) as f64 / (den as f64 * (2.0f64).powi(k as i32));
+        if mine == best {
+            run.count(&format!("{arm}: optimal"));
+        } else if excess <= (2.0f64).powi(-40) {
+            run.count(&format!("{arm}: optimal within 2^-40 (float tie)"));
+        } else {
+            let key = format!("{arm}: SUB-OPTIMAL among the completions (observation: outside the quantifier)");
+            if run.dist.get(&key).copied().unwrap_or(0) == 0 {
+                run.notes.push(format!("{key}; first: {} -> {s:?}, excess {excess:e}", describe(c, d)));
+            }
+            run.count(&key);
         }
     }
 }
@@ -184,13 +399,16 @@ pub fn run(tier: &str, seed: u64, only: Option<&str>) -> Run {
         counter: [0; 4],
         cache: HashMap::new(),
         corr_every: if thorough { [1, 1, 1, 2] } else { [2, 1, 1, 3] },
+        q_every: if thorough { 2 } else { 5 },
+        deep: std::env::var("VERIF_C13_DEEP").is_ok(),
     };
     let mut rng = Rng::new(seed ^ 0xC13);
     let grid_step = if thorough { 0.25 } else { 0.5 };
     let max_obj = if thorough { 8 } else { 7 };
 
     // 1. exhaustive small shapes x every miss count x grid + exact midpoints x priority x origin
-    for mode in [OSU, TAIKO, CATCH, MANIA] {
+    let deep = cx.deep;
+    for mode in if deep { vec![] } else { vec![OSU, TAIKO, CATCH, MANIA] } {
         let nf = N_FIELDS[mode as usize];
         let origins: &[u8] = match mode {
             OSU => &[0, 2, 3],
@@ -253,7 +471,7 @@ pub fn run(tier: &str, seed: u64, only: Option<&str>) -> Run {
     }
 
     // 2. sampled larger shapes with an independently computed exact optimum
-    let n_large = if thorough { 40_000 } else { 6_000 };
+    let n_large = if deep { 0 } else if thorough { 40_000 } else { 6_000 };
     for i in 0..n_large {
         let mode = [OSU, TAIKO, CATCH, MANIA][i % 4];
         let nf = N_FIELDS[mode as usize];
@@ -357,6 +575,177 @@ pub fn run(tier: &str, seed: u64, only: Option<&str>) -> Run {
                 fields[5] = mo;
                 let c = Case { mode, attrs: [no, nh, 0, 0], spinners: 0, passed: None, origin, worst, acc: Some(acc), fields };
                 cx.case(c, "sampled-large", None);
+            }
+        }
+    }
+    // 3. the search arms with some hit results provided (outside the quantifier; measured per arm)
+    let max_obj3 = if deep { 10 } else if thorough { 6 } else { 5 };
+    let n_assign = if deep { 12 } else if thorough { 8 } else { 3 };
+    let n_mid = if deep { 40 } else if thorough { 12 } else { 6 };
+    let grid3 = if deep { 2.5 } else if thorough { 5.0 } else { 10.0 };
+    for mode in if deep { vec![MANIA] } else { vec![OSU, CATCH, MANIA] } {
+        let nf = N_FIELDS[mode as usize];
+        let origins: &[u8] = match mode {
+            OSU => &[0, 2, 3],
+            MANIA => &[0, 2],
+            _ => &[1],
+        };
+        // provided patterns over the hit-result fields that run a search
+        let hit: Vec<usize> = if mode == CATCH { vec![3, 4] } else { HIT_IDX[mode as usize].to_vec() };
+        let mut patterns: Vec<Vec<bool>> = Vec::new();
+        for bits in 0u32..(1 << hit.len()) {
+            let given: Vec<bool> = (0..hit.len()).map(|i| bits >> i & 1 == 1).collect();
+            let n_given = given.iter().filter(|g| **g).count();
+            let searched = match mode {
+                OSU => n_given == 1,
+                CATCH => n_given == 2,
+                _ => n_given >= 1 && hit.len() - n_given >= 2,
+            };
+            if searched {
+                patterns.push(given);
+            }
+        }
+        for attrs in shapes(mode, max_obj3) {
+            if mode == MANIA && attrs[1] > 2 {
+                continue;
+            }
+            for &origin in origins {
+                let probe = Case { mode, attrs, spinners: 0, passed: None, origin, worst: false, acc: Some(0.0), fields: vec![None; nf] };
+                let d = derived_of(&probe);
+                let (cap, j) = judgements(&probe, d);
+                let mut miss_opts: Vec<Option<u32>> = vec![None];
+                miss_opts.extend((0..=cap.min(2)).map(Some));
+                for mo in miss_opts {
+                    let r = if mode == CATCH { attrs[2] } else { j - mo.unwrap_or(0).min(cap) };
+                    for given in &patterns {
+                        for _ in 0..n_assign {
+                            let mut fields = vec![None; nf];
+                            fields[MISS_IDX[mode as usize]] = mo;
+                            // provided values: mostly jointly fitting, sometimes beyond
+                            let mut left = r + u32::from(rng.chance(1, 6)) * 2;
+                            for (gi, &i) in hit.iter().enumerate() {
+                                if given[gi] {
+                                    let v = rng.below(u64::from(left) + 1) as u32;
+                                    left -= v.min(left);
+                                    fields[i] = Some(v);
+                                }
+                            }
+                            if mode == OSU && rng.chance(1, 2) {
+                                for i in 1..=3 {
+                                    if rng.chance(1, 2) {
+                                        fields[i] = Some(rng.below(4) as u32);
+                                    }
+                                }
+                            }
+                            let worst = mode != CATCH && rng.chance(1, 2);
+                            let mut targets: Vec<f64> = Vec::new();
+                            let mut a = 0.0;
+                            while a <= 100.0 {
+                                targets.push(a);
+                                a += grid3;
+                            }
+                            // midpoints between achievable accuracies of the unrestricted problem
+                            let (den, nums) = achievable(&probe, d, mo.unwrap_or(0).min(cap));
+                            if den > 0 && nums.len() > 1 {
+                                for _ in 0..n_mid {
+                                    let w = rng.below(nums.len() as u64 - 1) as usize;
+                                    let mid = 100.0 * (nums[w] + nums[w + 1]) as f64 / (2.0 * den as f64);
+                                    targets.push(mid);
+                                    targets.push(100.0 * nums[w] as f64 / den as f64);
+                                }
+                            }
+                            for acc in targets {
+                                let c = Case { mode, attrs, spinners: 0, passed: None, origin, worst, acc: Some(acc), fields: fields.clone() };
+                                cx.case_provided(c);
+                            }
+                        }
+                    }
+                }
+            }
+        }
+    }
+    // 4. the remaining arms (accuracy given, but too many hit results provided for a search): the
+    //    inventory says their state does not depend on the accuracy's value
+    //    (`*_acc_value_irrelevant`); measured per arm, tied to the model by `GS` lines
+    for mode in if deep { vec![] } else { vec![OSU, TAIKO, CATCH, MANIA] } {
+        let nf = N_FIELDS[mode as usize];
+        let hit: Vec<usize> = if mode == CATCH { vec![3, 4] } else { HIT_IDX[mode as usize].to_vec() };
+        let origins: &[u8] = match mode {
+            OSU => &[0, 2, 3],
+            MANIA => &[0, 2],
+            _ => &[1],
+        };
+        for bits in 0u32..(1 << hit.len()) {
+            let n_given = bits.count_ones() as usize;
+            let search = match mode {
+                OSU => n_given <= 1,
+                TAIKO => n_given == 0,
+                CATCH => n_given == 0,
+                _ => hit.len() - n_given >= 2,
+            };
+            if search {
+                continue;
+            }
+            for &origin in origins {
+                for rep in 0..(if thorough { 40 } else { 10 }) {
+                    let attrs = match mode {
+                        OSU => {
+                            let no = 1 + rng.below(8) as u32;
+                            let ns = rng.below(u64::from(no.min(3)) + 1) as u32;
+                            let nlt = if ns == 0 { 0 } else { rng.below(3) as u32 };
+                            [no + ns + nlt, no, ns, nlt]
+                        }
+                        TAIKO => [1 + rng.below(12) as u32, 0, 0, 0],
+                        CATCH => [rng.below(5) as u32, rng.below(4) as u32, 1 + rng.below(6) as u32, 0],
+                        _ => {
+                            let no = 1 + rng.below(8) as u32;
+                            [no, rng.below(u64::from(no.min(3)) + 1) as u32, 0, 0]
+                        }
+                    };
+                    let probe = Case { mode, attrs, spinners: 0, passed: None, origin, worst: false, acc: Some(0.0), fields: vec![None; nf] };
+                    let d = derived_of(&probe);
+                    let (cap, j) = judgements(&probe, d);
+                    let mo = if rep % 2 == 0 { None } else { Some(rng.below(u64::from(cap) + 1) as u32) };
+                    let r = if mode == CATCH { attrs[2] } else { j - mo.unwrap_or(0) };
+                    let mut fields = vec![None; nf];
+                    fields[MISS_IDX[mode as usize]] = mo;
+                    let mut left = r;
+                    let n_set = bits.count_ones();
+                    let mut seen = 0;
+                    for (gi, &i) in hit.iter().enumerate() {
+                        if bits >> gi & 1 == 1 {
+                            seen += 1;
+                            // catch: a consistent pair (the inconsistent one is a search arm, section 3)
+                            let v = if mode == CATCH && n_set == 2 && seen == 2 { left } else { rng.below(u64::from(left) + 1) as u32 };
+                            left -= v;
+                            fields[i] = Some(v);
+                        }
+                    }
+                    let worst = mode != CATCH && rng.chance(1, 2);
+                    let mut states = Vec::new();
+                    for acc in [12.5, 97.3] {
+                        let c = Case { mode, attrs, spinners: 0, passed: None, origin, worst, acc: Some(acc), fields: fields.clone() };
+                        cx.counter[mode as usize] += 1;
+                        let id = format!("{}{}", &MODE_NAMES[mode as usize][..1], cx.counter[mode as usize]);
+                        if only.is_some_and(|o| o != id) {
+                            continue;
+                        }
+                        let o = observe(&c, false);
+                        cx.run.eval(Some(request_line(&c, d).as_str()));
+                        cx.run.count("gen:non-search-arms");
+                        corr_line(&mut cx.run, &id, &c, d, &o);
+                        states.push((arm_of(&c, d), o.s1.clone()));
+                    }
+                    if let [(arm, a), (_, b)] = &states[..] {
+                        if a == b {
+                            cx.run.count(&format!("{arm}: not accuracy-driven (same state for two accuracies)"));
+                        } else {
+                            let key = format!("{arm}: state DEPENDS on the accuracy (inventory stale)");
+                            cx.run.notes.push(format!("{key}: {a:?} vs {b:?}"));
+                            cx.run.count(&key);
+                        }
+                    }
+                }
             }
         }
     }
